@@ -74,6 +74,21 @@ theorem calls_do_not_delay (es : List Ev) (s : St) (hr : run init es = some s)
     intro m hm; simp [hnotes m hm]
   simp [step, hp, hz]
 
+/-- **the dispatcher is never wedged**: in every reachable state in which a batch is waiting at
+the barrier, the handlers in flight can finish and the batch then passes -/
+theorem parked_batch_passes (es : List Ev) (s : St) (hr : run init es = some s)
+    (b : List Mem) (hp : s.parked = some b) :
+    ∃ es' s', run s es' = some s' ∧ s'.parked = none ∧ ∀ m ∈ b, m ∈ s'.released := by
+  have hinv := inv_run es init s inv_init hr
+  obtain ⟨es1, s1, hrun1, hl1, hp1, _, hinv1⟩ := drain (mu s) s rfl hinv
+  have hz : s1.nbar = 0 := by rw [hinv1.nbar_eq, hl1]; rfl
+  have hp1' : s1.parked = some b := by rw [hp1, hp]
+  refine ⟨es1 ++ [.pass], { s1 with parked := none, nbar := countNotes b, released := s1.released ++ b }, ?_, rfl, ?_⟩
+  · rw [run_append', hrun1]
+    simp [run, step, hp1', hz]
+  · intro m hm; simp [hm]
+
+
 /-- and the dispatcher always takes the next batch when it is idle -/
 theorem pop_enabled (s : St) (b : List Mem) (q : List (List Mem)) (hp : s.parked = none) (hq : s.queue = b :: q) :
     ∃ s', step s .pop = some s' := by simp [step, hp, hq]
